@@ -141,6 +141,7 @@ func init() {
 		wireBracketBalance(w, wc, r, "C07", map[string]bool{"code": true, "test": true})
 		wireOneByteEndian(w, wc, r, "C07")
 		wireEmitOnceKeys(w, wc, r, "C07")
+		goImportsUsed(w, wc, r, "C07")
 		c12OptionValidation(w, r, "C07") // a value outside the documented list reaches the type tables as a missing row: empty type names in the output
 		wireTemplateTaint(w, wc, r, "C07", []string{"go", "rust", "java", "python", "cpp", "lua"})
 		wireAssumptions(r)
@@ -153,6 +154,7 @@ func init() {
 		c17CopyBack(w, wc, r)
 		c17StickyState(w, wc, r)
 		wireEmitOnceKeys(w, wc, r, "C17")
+		goImportsUsed(w, wc, r, "C17")
 		wireBracketBalance(w, wc, r, "C17", map[string]bool{"test": true})
 		c17FloatSamples(w, r)
 		wireAssumptions(r)
